@@ -59,10 +59,10 @@ def J(id, entry, props, enforce=None, replace=(), loops=False, unwind=None, unwi
     j = {'id': 'seqmesh.' + id, 'src': SRC, 'entry': entry, 'enforce': enforce, 'replace': list(replace), 'loops': loops,
          'unwind': unwind, 'unwind_reason': unwind_reason, 'props': props, 'defines': DEFS}
     j.update(kw); JOBS.append(j); return j
-J('DecodeConnectivity.contract', 'h_enf_MSD_DecodeConnectivity', ['C03', 'C18', 'C02'], enforce='MSD_DecodeConnectivity', loops=True,
+J('DecodeConnectivity.contract', 'h_enf_MSD_DecodeConnectivity', ['C03', 'C18', 'C02'], native_api={'src': 'native/api_seqmesh_badindex.cc', 'args': []}, enforce='MSD_DecodeConnectivity', loops=True,
   replace=['DecoderBuffer_Decode_u8', 'DecoderBuffer_Decode_u16', 'DecoderBuffer_Decode_u32', 'DecodeVarint_u32', 'DecoderBuffer_remaining_size', 'MSD_DecodeAndDecompressIndices',
            'Mesh_AddFace', 'PointCloud_set_num_points', 'MSD_bitstream_version'], timeout=1800, cost=10, cbmc=['--object-bits', '11'])
-J('DecodeAndDecompressIndices.contract', 'h_enf_MSD_DecodeAndDecompressIndices', ['C03', 'C18', 'C02'], enforce='MSD_DecodeAndDecompressIndices', loops=True,
+J('DecodeAndDecompressIndices.contract', 'h_enf_MSD_DecodeAndDecompressIndices', ['C03', 'C18', 'C02'], native_api={'src': 'native/api_seqmesh_badindex.cc', 'args': []}, enforce='MSD_DecodeAndDecompressIndices', loops=True,
   replace=['alloc_u32_array', 'DecodeSymbols_stub', 'Mesh_AddFace'], timeout=1800, cost=10)
 TYPES_PRELUDE = ['core_types.h']
 COSIM = False
